@@ -18,7 +18,7 @@ class Server(object):
         self.total_time = False
         self.shift_end = False
         self.next_end_service_date = float("Inf")
-        self.busy_time = 0.0
+        self.busy_time = type(start_date)(0)  # zero of the clock's numeric type (float, or Decimal in exact mode)
         self.wrapped_up_busy_time = 0
 
     @property
